@@ -386,6 +386,12 @@ func registerNatives(e *Engine) {
 	}
 	n["(*net.UDPAddr).String"] = n["(*net.TCPAddr).String"]
 
+	// BEP 40 peer priority is a CRC32-C of the two addresses (arch-specific
+	// tables and function pointers); only its ordering role matters: arbitrary value
+	n["github.com/cenkalti/rain/v2/internal/peerpriority.Calculate"] = func(e *Engine, g *G, cs *callSite, a []Value) (Value, bool) {
+		return e.freshInternal("peerpriority", BV(32)), true
+	}
+
 	// ---- math/rand ----
 	n["math/rand/v2.IntN"] = func(e *Engine, g *G, cs *callSite, a []Value) (Value, bool) {
 		nn := a[0].(*Term)
